@@ -1,12 +1,16 @@
 package markdown
 
 import (
+	"bufio"
+	"bytes"
+	stdhtml "html"
 	"path/filepath"
 	"regexp"
 	"strings"
 
-	"github.com/zerx-lab/wordZero/pkg/document"
 	"github.com/yuin/goldmark/ast"
+	goldmarkhtml "github.com/yuin/goldmark/renderer/html"
+	"github.com/zerx-lab/wordZero/pkg/document"
 
 	// 添加goldmark扩展的AST节点支持
 	extast "github.com/yuin/goldmark/extension/ast"
@@ -157,58 +161,76 @@ func (r *WordRenderer) renderParagraph(node *ast.Paragraph) (ast.WalkStatus, err
 
 // renderInlineContent 渲染内联内容（文本、强调、链接等）
 func (r *WordRenderer) renderInlineContent(node ast.Node, para *document.Paragraph) {
+	r.renderInlineChildren(node, para, document.TextFormat{})
+}
+
+// inlineFormat 返回要应用的格式；没有任何格式时返回nil
+func inlineFormat(format document.TextFormat) *document.TextFormat {
+	if format == (document.TextFormat{}) {
+		return nil
+	}
+	f := format
+	return &f
+}
+
+// renderInlineChildren 递归渲染内联节点；format 是外层强调、删除线、链接等累积下来的格式，
+// 因此嵌套的强调（如粗体中的斜体）会同时带有两种格式。
+func (r *WordRenderer) renderInlineChildren(node ast.Node, para *document.Paragraph, format document.TextFormat) {
 	for child := node.FirstChild(); child != nil; child = child.NextSibling() {
 		switch n := child.(type) {
 		case *ast.Text:
-			text := string(n.Segment.Value(r.source))
-			para.AddFormattedText(text, nil)
-			
+			para.AddFormattedText(r.textValue(n), inlineFormat(format))
+
 			// 处理软换行（单个\n）
 			// goldmark将单个\n解析为多个Text节点，第一个节点的SoftLineBreak为true
 			// 在Markdown中，软换行通常应该被渲染为空格
 			if n.SoftLineBreak() {
-				para.AddFormattedText(" ", nil)
+				para.AddFormattedText(" ", inlineFormat(format))
 			}
 
+		case *ast.String:
+			para.AddFormattedText(string(n.Value), inlineFormat(format))
+
 		case *ast.Emphasis:
-			text := r.extractTextContent(n)
 			// goldmark中，level=1是斜体，level=2是粗体
+			inner := format
 			if n.Level == 2 {
-				// 使用粗体格式
-				format := &document.TextFormat{Bold: true}
-				para.AddFormattedText(text, format)
+				inner.Bold = true
 			} else {
-				// 使用斜体格式
-				format := &document.TextFormat{Italic: true}
-				para.AddFormattedText(text, format)
+				inner.Italic = true
 			}
+			r.renderInlineChildren(n, para, inner)
 
 		case *ast.CodeSpan:
 			text := r.extractTextContent(n)
 			// 使用CodeChar样式的格式
-			format := &document.TextFormat{
-				FontFamily: "Consolas",
-				FontColor:  "D73A49", // GitHub风格的红色
-			}
-			para.AddFormattedText(text, format)
+			inner := format
+			inner.FontFamily = "Consolas"
+			inner.FontColor = "D73A49" // GitHub风格的红色
+			para.AddFormattedText(text, &inner)
 
 		case *ast.Link:
-			text := r.extractTextContent(n)
 			// 简单处理链接，后续可以扩展为超链接
-			format := &document.TextFormat{
-				FontColor: "0000FF", // 蓝色
-			}
-			para.AddFormattedText(text, format)
+			inner := format
+			inner.FontColor = "0000FF" // 蓝色
+			r.renderInlineChildren(n, para, inner)
+
+		case *ast.AutoLink:
+			inner := format
+			inner.FontColor = "0000FF"
+			para.AddFormattedText(string(n.Label(r.source)), &inner)
 
 		case *ast.Image:
 			r.renderImageInline(n, para)
+
 		case *extast.Strikethrough:
 			// 处理删除线
-			text := r.extractTextContent(n)
-			format := &document.TextFormat{
-				Strike: true,
-			}
-			para.AddFormattedText(text, format)
+			inner := format
+			inner.Strike = true
+			r.renderInlineChildren(n, para, inner)
+
+		case *ast.RawHTML:
+			// 内联HTML标签不是可见文本
 
 		default:
 			// 检查是否为行内数学公式
@@ -219,10 +241,24 @@ func (r *WordRenderer) renderInlineContent(node ast.Node, para *document.Paragra
 			// 对于其他类型，尝试提取文本内容
 			text := r.extractTextContent(n)
 			if text != "" {
-				para.AddFormattedText(text, nil)
+				para.AddFormattedText(text, inlineFormat(format))
 			}
 		}
 	}
+}
+
+// textValue 返回Text节点的可见文本：反斜杠转义和字符实体按CommonMark解析
+// （\* 显示为 *，&amp; 显示为 &），而不是原样保留源文本。
+func (r *WordRenderer) textValue(n *ast.Text) string {
+	value := n.Segment.Value(r.source)
+	if n.IsRaw() {
+		return string(value)
+	}
+	var buf bytes.Buffer
+	w := bufio.NewWriter(&buf)
+	goldmarkhtml.DefaultWriter.Write(w, value)
+	w.Flush()
+	return stdhtml.UnescapeString(buf.String())
 }
 
 // renderList 渲染列表
@@ -257,15 +293,43 @@ func (r *WordRenderer) renderListItem(node *ast.ListItem) (ast.WalkStatus, error
 		return ast.WalkContinue, nil
 	}
 
-	// 普通列表项处理
-	text := r.extractTextContent(node)
-
+	// 普通列表项处理：列表项自身的文本（TextBlock/Paragraph子节点）渲染为一个段落，
+	// 保留其中的强调等格式；嵌套的列表作为更深一级的列表项渲染在其后，其他块（代码、引用等）
+	// 按各自的方式渲染。
 	// 简单的列表项处理，后续可以扩展为真正的列表格式
 	// 这里暂时使用缩进和符号来模拟列表
 	indent := strings.Repeat("  ", r.listLevel-1)
-	bulletText := "• " + text
-
-	r.doc.AddParagraph(indent + bulletText)
+	var para *document.Paragraph
+	for child := node.FirstChild(); child != nil; child = child.NextSibling() {
+		switch n := child.(type) {
+		case *ast.TextBlock, *ast.Paragraph:
+			if para == nil {
+				para = r.doc.AddParagraph(indent + "• ")
+			} else {
+				para.AddFormattedText(" ", nil)
+			}
+			r.renderInlineContent(n, para)
+		case *ast.List:
+			if para == nil {
+				para = r.doc.AddParagraph(indent + "• ")
+			}
+			r.renderList(n)
+		case *ast.FencedCodeBlock, *ast.CodeBlock:
+			r.renderCodeBlock(n)
+		case *ast.Blockquote:
+			r.renderBlockquote(n)
+		default:
+			if text := r.extractTextContent(child); text != "" {
+				if para == nil {
+					para = r.doc.AddParagraph(indent + "• ")
+				}
+				para.AddFormattedText(text, nil)
+			}
+		}
+	}
+	if para == nil {
+		r.doc.AddParagraph(indent + "• ")
+	}
 
 	return ast.WalkSkipChildren, nil
 }
@@ -312,7 +376,8 @@ func (r *WordRenderer) extractCodeBlockLines(node ast.Node) []string {
 	for i := 0; i < node.Lines().Len(); i++ {
 		line := node.Lines().At(i)
 		lineText := string(line.Value(r.source))
-		// 保持原始格式，包括空格和制表符
+		// 保持原始格式，包括空格和制表符；行尾的换行符不属于这一行的内容
+		lineText = strings.TrimRight(lineText, "\r\n")
 		lines = append(lines, lineText)
 	}
 
@@ -413,7 +478,14 @@ func (r *WordRenderer) extractTextContentRecursive(node ast.Node, buf *strings.B
 	for child := node.FirstChild(); child != nil; child = child.NextSibling() {
 		switch n := child.(type) {
 		case *ast.Text:
-			buf.Write(n.Segment.Value(r.source))
+			buf.WriteString(r.textValue(n))
+			if n.SoftLineBreak() {
+				buf.WriteString(" ")
+			}
+		case *ast.String:
+			buf.Write(n.Value)
+		case *ast.AutoLink:
+			buf.Write(n.Label(r.source))
 		default:
 			r.extractTextContentRecursive(child, buf)
 		}
